@@ -326,9 +326,11 @@ Lemma no_marker_impls :
   marker_impls = [] /\ forallb (fun d => match dsend d, dsync d with Auto, Auto => true | _, _ => false end) decls = true.
 Proof. split; [reflexivity | vm_compute; reflexivity]. Qed.
 
-(* every struct / enum of the crate is classified by one of the tables *)
+(* every PUBLIC struct / enum of the crate is classified by one of the tables (a private helper
+   type is not part of the API the property speaks about; it still takes part in the structural
+   auto-trait computation of any public type that stores it) *)
 Lemma all_classified :
-  forallb (fun d => mem (dname d) (map ename expectations)) decls = true.
+  forallb (fun d => negb (dpub d) || mem (dname d) (map ename expectations)) decls = true.
 Proof. vm_compute; reflexivity. Qed.
 
 Lemma sealed_similar :
